@@ -56,7 +56,11 @@ type Fixture struct {
 	PubPass  []byte
 	PrivPass []byte
 	Birthday time.Time
-	Recovery uint32
+	// StallIsViolation: for the properties that promise a wallet that keeps
+	// following its backend, a notification handler the runtime reports
+	// blocked for minutes is a violation, not an inconclusive run.
+	StallIsViolation bool
+	Recovery         uint32
 
 	Chain  *simchain.Chain
 	Client *simchain.Client
@@ -162,7 +166,17 @@ func (f *Fixture) Quiesce() {
 		if f.Text != nil {
 			txt = f.Text()
 		}
-		f.Inconclusive("%v (after %v)\n--- history ---\n%s\n--- goroutines ---\n%s", err, QuiesceTimeout, txt, filterStacks(string(buf[:n])))
+		dump := string(buf[:n])
+		if f.StallIsViolation && deadlockedHandler(dump) == "" {
+			// the runtime marks a goroutine as blocked "for minutes" only after
+			// a full minute: look once more a little later
+			time.Sleep(8 * time.Second)
+			dump = string(buf[:runtime.Stack(buf, true)])
+		}
+		if g := deadlockedHandler(dump); g != "" && f.StallIsViolation {
+			f.Violation("the wallet stopped processing chain notifications: its notification handler has been blocked for over a minute\n--- history ---\n%s\n--- blocked goroutine ---\n%s", txt, g)
+		}
+		f.Inconclusive("%v (after %v)\n--- history ---\n%s\n--- goroutines ---\n%s", err, QuiesceTimeout, txt, filterStacks(dump))
 	}
 }
 
@@ -230,6 +244,33 @@ func (f *Fixture) Close() {
 }
 
 // filterStacks keeps the goroutines that are inside btcwallet code.
+// deadlockedHandler returns the stack of the wallet's notification handler when
+// the runtime reports it blocked on a lock, channel or condition for minutes (a
+// handler that is busy, or retrying with short sleeps, is not reported).
+func deadlockedHandler(all string) string {
+	for _, g := range strings.Split(all, "\n\n") {
+		if !strings.Contains(g, "handleChainNotifications") {
+			continue
+		}
+		head := g
+		if i := strings.Index(g, "\n"); i >= 0 {
+			head = g[:i]
+		}
+		if !strings.Contains(head, "minutes]") {
+			continue
+		}
+		for _, st := range []string{"[semacquire", "[sync.Mutex.Lock", "[sync.RWMutex", "[sync.Cond.Wait", "[chan receive", "[chan send", "[select", "[sync.WaitGroup"} {
+			if strings.Contains(head, st) {
+				if len(g) > 4000 {
+					g = g[:4000]
+				}
+				return g
+			}
+		}
+	}
+	return ""
+}
+
 func filterStacks(all string) string {
 	var out []string
 	for _, g := range strings.Split(all, "\n\n") {
